@@ -80,6 +80,8 @@ type b2bMode struct {
 	Server string `json:"server"` // zstd advertised or not
 	Chunk  int    `json:"chunk_size"`
 	Buf    string `json:"upload_buffer"` // slice, reader
+	Pool   string `json:"zstd_pool"`     // bounded, unbounded (both sides)
+	Faults bool   `json:"with_backend_faults"`
 }
 
 type fixture struct {
@@ -110,7 +112,11 @@ func newFixture(mode b2bMode) *fixture {
 			return h(srv, ss)
 		}),
 	)
-	var serverPool bb_zstd.Pool = newPool()
+	mkPool := newBoundedPool
+	if mode.Pool == "unbounded" {
+		mkPool = newPool
+	}
+	serverPool := mkPool()
 	bytestream.RegisterByteStreamServer(f.server, grpcservers.NewByteStreamServer(f.cas, mode.Chunk, serverPool))
 	remoteexecution.RegisterContentAddressableStorageServer(f.server, grpcservers.NewContentAddressableStorageServer(f.cas, 1<<20))
 	remoteexecution.RegisterActionCacheServer(f.server, grpcservers.NewActionCacheServer(f.ac, 1<<20))
@@ -129,7 +135,7 @@ func newFixture(mode b2bMode) *fixture {
 	f.conn = conn
 	var clientPool bb_zstd.Pool
 	if mode.Client == "zstd" {
-		clientPool = newPool()
+		clientPool = mkPool()
 	}
 	gen := func() (uuid.UUID, error) { return uuid.Parse(fixedUUID) }
 	f.casCli = grpcclients.NewCASBlobAccess(conn, gen, mode.Chunk, clientPool)
@@ -221,6 +227,22 @@ func applyCAS(ba blobstore.BlobAccess, op b2bop, bufKind string) stepResult {
 	}
 }
 
+// extraValidOnly: a holds everything b holds plus objects whose bytes match their digest.
+func extraValidOnly(a, b map[string]string) bool {
+	_, contents := b2bDigests()
+	for k, v := range b {
+		if av, ok := a[k]; !ok || av != v {
+			return false
+		}
+	}
+	for k, v := range a {
+		if len(k) != 2 || k[0] != 'd' || v != string(contents[int(k[1]-'0')]) {
+			return false
+		}
+	}
+	return true
+}
+
 func modelContent(m *sim.ModelBlobAccess) map[string]string {
 	ds, _ := b2bDigests()
 	known := map[string]digest.Digest{}
@@ -246,6 +268,20 @@ func runB2B(f *fixture, c *b2bcase) (msg, sig, outcome string) {
 		f.fl.quiesce()
 		want := applyCAS(direct, op, c.Mode.Buf)
 		oc = append(oc, op.Op+"="+got.Code)
+		if i == c.FaultStep {
+			if op.Op == "findmissing" && op.Set == 0 {
+				// Nobody has to ask the backend about the empty set.
+				want = stepResult{Code: "OK", Set: []string{}}
+				if len(got.Set) == 0 {
+					got.Set = []string{}
+				}
+			}
+			if op.Op == "put" && op.Data != "valid" && got.Code != "OK" && want.Code != "OK" {
+				// Two independent failures (bad data, failing backend): which
+				// one is reported is not part of the property.
+				got.Code = want.Code
+			}
+		}
 		if !reflect.DeepEqual(got, want) {
 			what := "result"
 			switch {
@@ -258,6 +294,10 @@ func runB2B(f *fixture, c *b2bcase) (msg, sig, outcome string) {
 				fmt.Sprintf("back-to-back-cas:%s-%s-differs:client=%s", op.Op, what, c.Mode.Client), ""
 		}
 		a, b := modelContent(viaGRPC), modelContent(direct)
+		if !reflect.DeepEqual(a, b) && op.Op == "put" && op.Data != "valid" && got.Code != "OK" && extraValidOnly(a, b) {
+			return fmt.Sprintf("step %d %+v failed with %s on both sides, but behind client+server the backend now holds %v, the directly driven backend %v: the client finished (finish_write) the upload it had to abandon, and what it had sent so far matches the digest", i, op, got.Code, a, b),
+				"back-to-back-cas:failed-put-still-commits:client=" + c.Mode.Client, ""
+		}
 		if !reflect.DeepEqual(a, b) {
 			return fmt.Sprintf("after step %d %+v: backend behind client+server holds %v, the directly driven backend %v", i, op, a, b),
 				fmt.Sprintf("back-to-back-cas:%s-content-differs:client=%s", op.Op, c.Mode.Client), ""
@@ -303,13 +343,17 @@ func (p *fixturePool) closeAll() {
 
 func b2bModes() []b2bMode {
 	var ms []b2bMode
-	for _, cs := range [][2]string{{"identity", "identity"}, {"zstd", "zstd"}, {"zstd", "identity"}} {
-		for _, chunk := range []int{1, 100} {
-			for _, buf := range []string{"slice", "reader"} {
-				ms = append(ms, b2bMode{Client: cs[0], Server: cs[1], Chunk: chunk, Buf: buf})
-			}
+	for _, chunk := range []int{1, 100} {
+		for _, buf := range []string{"slice", "reader"} {
+			ms = append(ms, b2bMode{Client: "identity", Server: "identity", Chunk: chunk, Buf: buf, Pool: "bounded", Faults: chunk == 100 && buf == "slice"})
+			ms = append(ms, b2bMode{Client: "zstd", Server: "zstd", Chunk: chunk, Buf: buf, Pool: "bounded", Faults: chunk == 100 && buf == "reader"})
 		}
 	}
+	// The default pool allocates a fresh decoder (8 MiB window) per stream: one mode.
+	ms = append(ms, b2bMode{Client: "zstd", Server: "zstd", Chunk: 100, Buf: "reader", Pool: "unbounded"})
+	// A client that could compress talking to a server that does not advertise zstd.
+	ms = append(ms, b2bMode{Client: "zstd", Server: "identity", Chunk: 100, Buf: "slice", Pool: "bounded", Faults: true})
+	ms = append(ms, b2bMode{Client: "zstd", Server: "identity", Chunk: 100, Buf: "reader", Pool: "bounded"})
 	return ms
 }
 
@@ -317,7 +361,7 @@ func b2bSub(r *ev.Run, name string, depth int) {
 	sub := r.NewSub(name, "venum", fmt.Sprintf(
 		"grpcclients.NewCASBlobAccess <-bufconn-> ByteStream+CAS+Capabilities servers <-> model backend versus the model backend driven directly: every sequence of <=%d operations over "+
 			"{Put valid x 3 digests, Put flipped/short/long data, Get x 3, FindMissing x 8 subsets} (digests: \"abc\" and \"\" under i/j, \"abc\" under i) x "+
-			"{client identity; client zstd + server advertising zstd; client zstd + server not advertising} x chunk size {1,100} x upload buffer {byte slice, reader} x backend failing during step {never, each step}; results, codes, sets and backend content compared after every step", depth))
+			"11 modes {client identity | client zstd + server advertising zstd (bounded pools; once the default unbounded pool) | client zstd + server not advertising} x chunk size {1,100} x upload buffer {byte slice, reader}; in 3 of the modes also with the backend failing during step {each step}; results, codes, sets and backend content compared after every step", depth))
 	done := sub.Timer()
 	alphabet := b2bAlphabet()
 	var seqs [][]b2bop
@@ -347,6 +391,9 @@ func b2bSub(r *ev.Run, name string, depth int) {
 		defer pool.release(f)
 		var evals, nontrivial, nops int64
 		for fs := -1; fs < len(seq); fs++ {
+			if fs >= 0 && !mode.Faults {
+				break
+			}
 			c := b2bcase{Mode: mode, Ops: seq, FaultStep: fs}
 			msg, sig, oc := runB2B(f, &c)
 			evals++
